@@ -24,6 +24,10 @@ def parseHexN (n : Nat) (s : String) : Option Bytes :=
   | some b => if b.length == n then some b else none
   | none => none
 
+/-- `uint32_t` subtraction `a - b` (wraps).  The literal is the *first* summand on purpose: `Nat.add` recurses on its
+    second argument, so `a + 4294967296` with a variable `a` sends the kernel's reduction into 2^32 unfoldings. -/
+def sub32 (a b : Nat) : Nat := (4294967296 + a - b) % 4294967296
+
 /-- `IPv6::ext_header` = `PDUOption<uint8_t, IPv6>` -/
 structure ExtHdr where
   option : Nat          -- option_ (uint8_t)
@@ -136,7 +140,7 @@ def extStep (c : Cursor) (st : LoopSt) : Out (Cursor × LoopSt) := do
   let d ← c.peek "IPv6::IPv6 ext_header(current_header, payload_size, stream.pointer())" 0 payloadSize
   let apl ← jumboAdjust st.apl st.cur c payloadSize
   let c' ← c.skip payloadSize                                     -- stream.skip(payload_size)
-  pure (c', ⟨extType, (apl + 4294967296 - extSize) % 4294967296,  -- actual_payload_length -= ext_size (uint32_t)
+  pure (c', ⟨extType, sub32 apl extSize,  -- actual_payload_length -= ext_size (uint32_t)
              st.frag || st.cur == FRAGMENT, st.hs ++ [⟨st.cur, payloadSize, d⟩]⟩)
 
 /-- the payload branch: `RawPDU(stream.pointer(), actual_payload_length)` behind a fragment header, else
@@ -318,7 +322,7 @@ def wireChain (p : Ipv6) (last : Nat) : Nat × List Nat :=
 def write (cx : Ctx) (p : Ipv6) (region : Bytes) : Out Bytes := do
   let (nh, nexts) := wireChain p (lastNext cx p)
   -- payload_length(static_cast<uint16_t>(total_sz - sizeof(header_)))
-  let p1 := { p with nextHeader := nh, payloadLength := (region.length + 4294967296 - 40) % 4294967296 % 65536 }
+  let p1 := { p with nextHeader := nh, payloadLength := sub32 region.length 40 % 65536 }
   let o ← (OutCursor.ofRegion region).write p1.headerBytes
   let o ← writeHeaders o (p.headers.zip nexts)
   pure o.buffer
